@@ -252,6 +252,11 @@ func genGroup(r *sx.Rng) group {
 				return raw
 			}
 		}
+		if len(types) > 1 && r.Chance(1, 8) {
+			// an end-of-event record that is not the last one (only a trailing one is stripped)
+			k := 1 + r.Intn(len(types)-1)
+			types = append(types[:k], append([]auparse.AuditMessageType{auparse.AUDIT_EOE}, types[k:]...)...)
+		}
 		for _, t := range types {
 			add(t)
 		}
@@ -328,8 +333,22 @@ func modeEvents(seed uint64, n int, out *sx.Out) {
 		in := append([]*auparse.AuditMessage(nil), g.msgs...)
 		before := snapshot(in)
 		recs := recordsCoq(in)
-		e1, err1, p1 := coalesce(append([]*auparse.AuditMessage(nil), in...))
+		// the slice handed to CoalesceMessages is the caller's too: the same one is used for every call, and it must still hold the same messages afterwards
+		call := append([]*auparse.AuditMessage(nil), in...)
+		sameSlice := func() bool {
+			if len(call) != len(in) {
+				return false
+			}
+			for k := range in {
+				if call[k] != in[k] {
+					return false
+				}
+			}
+			return true
+		}
+		e1, err1, p1 := coalesce(call)
 		after := snapshot(in)
+		sliceIntact := sameSlice()
 		var f1 [][2]string
 		res := "None"
 		if e1 != nil && err1 == nil {
@@ -338,7 +357,8 @@ func modeEvents(seed uint64, n int, out *sx.Out) {
 		}
 		w1 := warningsCoq(e1)
 		// again on the same messages
-		e2, err2, p2 := coalesce(append([]*auparse.AuditMessage(nil), in...))
+		e2, err2, p2 := coalesce(call)
+		sliceIntact = sliceIntact && sameSlice()
 		repeatOK := (e1 == nil) == (e2 == nil) && (err1 == nil) == (err2 == nil)
 		if e1 != nil && e2 != nil {
 			repeatOK = repeatOK && reflect.DeepEqual(flatEvent(e2), f1) && warningsCoq(e2) == w1
@@ -361,12 +381,12 @@ func modeEvents(seed uint64, n int, out *sx.Out) {
 					isolated = false
 				}
 			}
-			e3, _, _ := coalesce(append([]*auparse.AuditMessage(nil), in...))
+			e3, _, _ := coalesce(call)
 			if e3 != nil && !reflect.DeepEqual(flatEvent(e3), f1) {
 				isolated = false
 			}
 		}
-		coq := fmt.Sprintf("ECase %s %v %s %s %v %v %v", recs, p1 || p2, res, w1, before == after, repeatOK, isolated)
+		coq := fmt.Sprintf("ECase %s %v %s %s %v %v %v", recs, p1 || p2, res, w1, before == after && sliceIntact, repeatOK, isolated)
 		out.Case(coq, map[string]interface{}{"case": i, "records": strings.Join(g.desc, ","), "err": fmt.Sprint(err1), "warnings": len(w1) > 2}, fmt.Sprintf("group/records=%d", len(in)), e1 != nil)
 	}
 	for i := 0; i < n; i++ {
